@@ -2,10 +2,11 @@
 //! (`Model.MslDup`): the struct half of the Cast arm of `generate_expression` (`structCastNow`: the side-effect test as a table,
 //! `get_member_types`, the decision convert-per-element / refuse, which clauses are the operand itself and which the operand
 //! converted to the element's type — fix 5d2f434) and the floating-point `%=` arm of `generate_intrinsic_op` (`remAssignNow`:
-//! `is_plain_place` / `is_plain_index` as tables, the decision `a = fmod(a, b)` / refuse — fix 92d66eb).
+//! `is_plain_place` / `is_plain_index` / `is_free_of_writes` as tables, the decision `a = fmod(a, b)` / refuse — fixes 92d66eb,
+//! 35faaaa).
 //!
 //! request : C02.dup \t <source, one line> \t <entry> ;; <entry> …
-//!           entry       cast <type shape> @ <type id of the operand> @ <operand>   |   rem <target>
+//!           entry       cast <type shape> @ <type id of the operand> @ <operand>   |   rem <target> @ <right operand>
 //!           type shape  (leaf K) | (arr T n) | (arr T none) | (struct T…)   — what `get_member_types` distinguishes; K = the
 //!                       unmodified TypeId of the element
 //!           operand     (Ctor field…), field = p (not an expression) | o:<IntrinsicOp> | (one E) | (many E…)
@@ -97,7 +98,9 @@ fn walk_expr(m: &ir::Module, e: &ir::Expression, out: &mut Vec<String>) {
                 m.type_registry.extract_scalar(unmod),
                 Some(ir::ScalarType::Float16) | Some(ir::ScalarType::Float32) | Some(ir::ScalarType::Float64)
             ) {
-                out.push(format!("rem {}", dexpr(&args[0])));
+                if args.len() == 2 {
+                    out.push(format!("rem {} @ {}", dexpr(&args[0]), dexpr(&args[1])));
+                }
             }
         }
     }
